@@ -1,28 +1,50 @@
 """C01 — float<->half conversion is exact IEEE-754 binary16, RNE.
 
-Theorems: lean/ImathVerif/Props/C01.lean over the hand model Model/Half.lean.
+Theorems: lean/ImathVerif/Props/C01.lean over the hand model Model/Half.lean
+(every theorem of the file is required; statements are pinned).
 Tie: (a) Gen/ToFloatTable.lean regenerated from toFloat.h; (b) exhaustive
 correspondence of the model with the real imath_float_to_half /
-imath_half_to_float and the C++ half(float) / operator float(), default build
-configuration, over all 2^32 floats and all 2^16 halves."""
-import os
+imath_half_to_float and the C++ half(float) / operator float() /
+half::operator=(float), default (table) and no-table build configurations, over
+all 2^32 floats and all 2^16 halves; (c) the same binary under FE_TOWARDZERO / FE_UPWARD /
+FE_DOWNWARD (the conversions are specified as RNE whatever the caller's mode);
+(d) the IMATH_HALF_ENABLE_FP_EXCEPTIONS build: results and raised exception
+flags against the model f2hExc; (e) the independent Python spec against the
+model (standing obligation); (f) the -mf16c build (NaN payload canonicalised),
+to-nearest and under the directed modes."""
+import os, time
 import lib, gen_half, halfcorr, halfspec
 
+# every theorem of Props/C01.lean (deleting or renaming any of them is a failure)
 REQUIRED = ["h2f_exact", "h2f_nan", "table_eq_shift", "generator_eq_shift", "roundtrip",
-            "f2h_nearest", "f2h_sign", "f2h_overflow", "f2h_flush", "f2h_nan"]
+            "f2h_nearest", "f2h_sign", "fval_65520", "fval_strictMono", "fval_le_iff_le",
+            "f2h_overflow", "f2h_overflow_val", "f2h_inf", "f2h_flush", "f2h_nan", "f2h_subnormal_correct",
+            "IsRNE16_unique", "f2h_is_the_rne",
+            "f2hExc_snd", "f2hExc_val", "f2hExc_overflow", "f2hExc_underflow", "f2hExc_flags",
+            "h2f_exact_Q", "f2h_nearest_Q", "f2h_overflow_Q", "f2h_flush_Q"]
+
+HALF_CPP = os.path.join(lib.REPO, "src/Imath/half.cpp")
 
 
 def run(chk):
     chk.trusted = ["Lean 4.33 kernel (decide +kernel enumeration through allBits, no native_decide)",
                    "axioms: propext, Classical.choice, Quot.sound at most",
-                   "hand model Model/Half.lean, tied by exhaustive 2^32+2^16 correspondence (harness/corr/half_corr.cpp)",
-                   "regex translator tools/gen_half.py for toFloat.h", "g++ and the CPU executing the harness"]
-    chk.assumptions = ["Spec/HalfSpec.lean states IEEE binary16/binary32 denotation and RNE correctly"]
+                   "hand model Model/Half.lean (f2h, h2f, f2hExc), tied by exhaustive 2^32+2^16 correspondence (harness/corr/half_corr.cpp)",
+                   "FNV-1a 64-bit block hashes over 65,536 results each (a multi-entry collision would hide a difference; "
+                   "a single changed entry always changes the hash)",
+                   "regex translator tools/gen_half.py for toFloat.h", "g++ and the CPU executing the harness",
+                   "glibc fesetround/fetestexcept/feclearexcept for the rounding-mode and FP-exception observations"]
+    chk.assumptions = ["Spec/HalfSpec.lean (scaled naturals) states IEEE binary16/binary32 denotation and RNE correctly; "
+                       "reduced by Spec/HalfVal.lean: hval/fval are proved equal to the textbook ℚ-valued formulas times the scale, "
+                       "IsRNE16 is proved equivalent to the |·|-based IsRNE16Q and to have a unique solution, and the independent "
+                       "Python spec is compared with the model on every run"]
     chk.rule = ("every float bit pattern (65,536 blocks of 2^16, FNV hash per block, bisection on mismatch) and every half "
-                "pattern through the C functions and the C++ constructor/cast; non-trivial = all but +-0")
+                "pattern through the C functions, the C++ constructor/cast and half::operator=(float); the same binary under the "
+                "three directed rounding modes and the FP-exceptions build (result + raised flags) on every boundary block "
+                "(all thresholds and binade edges, both signs) + a seed-offset stride of blocks in quick, all 2^32 in thorough; "
+                "non-trivial = all but +-0")
     ents, changed = gen_half.regenerate()
     chk.extra["toFloat_entries"] = len(ents)
-    model_h2f = None
 
     def search(name):
         # executable form of the per-pattern theorems: compare table / model with the independent Python spec
@@ -39,17 +61,86 @@ def run(chk):
     okd, out = halfcorr.build_driver()
     chk.oblige("build:drv_half", "build", okd, None if okd else out[-800:])
     chk.check_theorems("ImathVerif.Props.C01", required=REQUIRED, search=search)
+    halfcorr.check_statement_pins(chk, os.path.join(lib.LEAN, "ImathVerif", "Props", "C01.lean"), "statements_c01.json", "C01")
     if chk.thorough:
         chk.leanchecker("ImathVerif.Props.C01")
-    ok, binary, o = lib.cxx_build("half_corr_table", ["corr/half_corr.cpp", os.path.join(lib.REPO, "src/Imath/half.cpp")])
+    have_f16c = halfcorr.cpu_has_f16c()
+    chk.extra["cpu_has_f16c"] = have_f16c
+    jobs = [dict(name="half_corr_table", sources=["corr/half_corr.cpp", HALF_CPP]),
+            dict(name="c01_fpexc", sources=["corr/half_corr.cpp", HALF_CPP], extra=["-DIMATH_HALF_ENABLE_FP_EXCEPTIONS"])]
+    jobs.append(dict(name="c01_notable", sources=["corr/half_corr.cpp", HALF_CPP], extra=["-DIMATH_HALF_NO_LOOKUP_TABLE"]))
+    if have_f16c:
+        jobs.append(dict(name="c01_f16c", sources=["corr/half_corr.cpp", HALF_CPP], extra=["-mf16c"]))
+    res = lib.cxx_build_many(jobs)
+    ok, binary, o = res["half_corr_table"]
     chk.oblige("build:half_corr(default config)", "build", ok, None if ok else o[-800:])
     if not ok:
         chk.fail("build:half_corr", "build:half_corr", "correspondence harness does not compile against the current tree",
                  {"compiler_output": o[-3000:]}, False)
         return
-    if okd:
-        halfcorr.compare_config(chk, "table", binary, "C01")
-        chk.exhaustive = True
-        chk.sample({"float_bits": "0x38801000", "spec_rne16": "0x%04x" % halfspec.spec_f2h(0x38801000), "note": "tie, even significand"})
-        chk.sample({"float_bits": "0x477ff000", "spec_rne16": "0x%04x" % halfspec.spec_f2h(0x477ff000), "note": "65520 -> inf"})
-        chk.sample({"float_bits": "0x33000001", "spec_rne16": "0x%04x" % halfspec.spec_f2h(0x33000001), "note": "just above 2^-25"})
+    if not okd:
+        chk.fail("build:drv_half", "C01:build:drv_half", "the model driver does not build", {"output": out[-3000:]}, False)
+        return
+    model_blocks = halfcorr.model_f2h_blocks(False)
+    model_h2f = halfcorr.model_h2f_all(False)
+    # (b) default build, to-nearest: all 2^32 through c / cxx / asg, all 2^16 through c / cxx
+    halfcorr.compare_config(chk, "table", binary, "C01", apis=("c", "cxx", "asg"), model_blocks=model_blocks, model_h2f=model_h2f)
+    chk.exhaustive = True
+    # (b') the shift/rebias branch itself (-DIMATH_HALF_NO_LOOKUP_TABLE): the branch the model h2f transcribes, so that the
+    # h2f_* theorems are tied to their own source lines inside this property (the table is tied by table_eq_shift + (b))
+    okn, binn, on = res["c01_notable"]
+    chk.oblige("build:half_corr[notable] (-DIMATH_HALF_NO_LOOKUP_TABLE)", "build", okn, None if okn else on[-800:])
+    if not okn:
+        chk.fail("build:notable", "C01:build:notable", "half.h does not compile with IMATH_HALF_NO_LOOKUP_TABLE", {"compiler_output": on[-3000:]}, False)
+    else:
+        halfcorr.compare_config(chk, "notable", binn, "C01", apis=("c", "cxx", "asg"), model_blocks=model_blocks, model_h2f=model_h2f)
+    # (c) the same binary under the directed rounding modes
+    t = time.time()
+    chk.extra["rounding_modes"] = halfcorr.rounding_sweep(chk, "table", binary, "C01", model_blocks, model_h2f,
+                                                          apis=("c", "cxx", "asg"), canon=False, seed=chk.seed,
+                                                          exhaustive=chk.thorough)
+    chk.extra["rounding_modes_s"] = round(time.time() - t, 1)
+    # (d) FP-exceptions build: values (same hashes as the plain build are implied by the x-hash) + flags
+    okx, binx, ox = res["c01_fpexc"]
+    chk.oblige("build:half_corr[fpexc] (-DIMATH_HALF_ENABLE_FP_EXCEPTIONS)", "build", okx, None if okx else ox[-800:])
+    if not okx:
+        chk.fail("build:fpexc", "C01:build:fpexc", "half.h does not compile with IMATH_HALF_ENABLE_FP_EXCEPTIONS",
+                 {"compiler_output": ox[-3000:]}, False)
+    else:
+        t = time.time()
+        blocks = halfcorr.sample_blocks(chk.seed, 127)
+        if chk.thorough:
+            halfcorr.compare_fpexc(chk, "fpexc", binx, "C01", None, apis=("c",))
+            halfcorr.compare_fpexc(chk, "fpexc", binx, "C01", blocks, apis=("cxx", "asg"))
+        else:
+            halfcorr.compare_fpexc(chk, "fpexc", binx, "C01", blocks, apis=("c", "cxx", "asg"))
+        halfcorr.compare_h2f(chk, "fpexc", binx, "C01", model_h2f)
+        chk.extra["fpexc"] = {"blocks_sampled": len(blocks), "exhaustive_api_c": chk.thorough, "seconds": round(time.time() - t, 1),
+                              "observed": "result | raised<<16 after every call; raised = FE_OVERFLOW iff finite -> inf "
+                                          "(theorem f2hExc_overflow), FE_UNDERFLOW iff non-zero -> zero (f2hExc_underflow), "
+                                          "never anything else (f2hExc_flags; subnormal inexact results raise nothing)"}
+    # (f) the hardware path (-mf16c): NaN payloads canonicalised on both sides (the property's own
+    # exception), to-nearest exhaustively and under the directed modes
+    if not have_f16c:
+        chk.oblige("config:f16c", "skipped", True, "this CPU has no F16C; the hardware path cannot be executed here")
+    else:
+        okf, binf, of = res["c01_f16c"]
+        chk.oblige("build:half_corr[f16c] (-mf16c)", "build", okf, None if okf else of[-800:])
+        if not okf:
+            chk.fail("build:f16c", "C01:build:f16c", "half.h does not compile with -mf16c", {"compiler_output": of[-3000:]}, False)
+        else:
+            t = time.time()
+            mc = halfcorr.model_f2h_blocks(True)
+            hc = [halfspec.canon32(x) for x in model_h2f]
+            halfcorr.compare_config(chk, "f16c", binf, "C01", apis=("c", "cxx", "asg"), canon=True, model_blocks=mc, model_h2f=hc)
+            chk.extra["rounding_modes_f16c"] = halfcorr.rounding_sweep(chk, "f16c", binf, "C01", mc, hc, apis=("c", "cxx", "asg"),
+                                                                       canon=True, seed=chk.seed, exhaustive=chk.thorough, f16c=True)
+            chk.extra["f16c_s"] = round(time.time() - t, 1)
+    # (e) independent Python spec vs the model
+    t = time.time()
+    sb = halfcorr.sample_blocks(chk.seed, 1021 if not chk.thorough else 61)
+    halfcorr.compare_spec_model(chk, "C01", model_blocks, model_h2f, sb)
+    chk.extra["spec_vs_model"] = {"blocks": len(sb), "seconds": round(time.time() - t, 1)}
+    chk.sample({"float_bits": "0x38801000", "spec_rne16": "0x%04x" % halfspec.spec_f2h(0x38801000), "note": "tie, even significand"})
+    chk.sample({"float_bits": "0x477ff000", "spec_rne16": "0x%04x" % halfspec.spec_f2h(0x477ff000), "note": "65520 -> inf"})
+    chk.sample({"float_bits": "0x33000001", "spec_rne16": "0x%04x" % halfspec.spec_f2h(0x33000001), "note": "just above 2^-25"})
